@@ -465,6 +465,11 @@ class SimpleFormula(
         self.__terms.insert(index, value)
         self._reorder()
 
+    def __copy__(self) -> SimpleFormula:
+        # (a copy owns its list of terms: mutating it must not disturb the
+        # original, whose terms would otherwise be left out of order)
+        return SimpleFormula(list(self.__terms), _ordering=self.ordering)
+
     def __eq__(self, other: Any) -> bool:
         if isinstance(other, SimpleFormula):
             other = list(other)
